@@ -188,6 +188,12 @@ func IntProps(propContainer map[string]object.PanObject) map[string]object.PanOb
 			) object.PanObject {
 				self, other, err := checkIntInfixArgs(args, "**", object.NewPanInt(1))
 				if err == nil {
+					// calculate exactly if the result can be represented as int
+					if res, ok := intPow(self.Value, other.Value); ok {
+						// NOTE: Int's descendants also call this
+						return object.NewInheritedInt(args[0].Proto(), res)
+					}
+
 					res := math.Pow(float64(self.Value), float64(other.Value))
 					// check if f is integer
 					if math.Floor(res) == res {
@@ -460,6 +466,28 @@ func IntProps(propContainer map[string]object.PanObject) map[string]object.PanOb
 			},
 		),
 	}
+}
+
+// intPow returns base**exp if exp is not negative and the result fits in int64.
+func intPow(base, exp int64) (int64, bool) {
+	if exp < 0 {
+		return 0, false
+	}
+
+	// NOTE: the result never fits if exp is more than 63 (and also prevents huge allocation)
+	if exp > 63 && (base > 1 || base < -1) {
+		return 0, false
+	}
+	// only the parity of exp matters for 0, 1 and -1
+	if exp > 63 {
+		exp = 62 + exp%2
+	}
+
+	res := new(big.Int).Exp(big.NewInt(base), big.NewInt(exp), nil)
+	if !res.IsInt64() {
+		return 0, false
+	}
+	return res.Int64(), true
 }
 
 func checkIntInfixArgs(
